@@ -17,6 +17,7 @@ Require Import Grits.Base Grits.Forms Grits.Expand Grits.TcTop Grits.Runtime.
 Require Import Grits.RuntimeFootprint Grits.proofs.RuntimeFacts Grits.proofs.Diamond Grits.proofs.Determinism Grits.proofs.AsyncSync Grits.proofs.RuntimeCheckFacts Grits.proofs.ForkJoin Grits.proofs.DeterminismExamples.
 Require Import Grits.Tc Grits.spec.RtTyping Grits.spec.Topo Grits.proofs.RtSafety Grits.proofs.RtInit Grits.proofs.RtTheorems Grits.proofs.DeterminismTyped Grits.proofs.TopoLin Grits.proofs.TopoStep Grits.proofs.TopoReach Grits.proofs.InitLinear.
 Require Import Grits.spec.SynOk Grits.proofs.RtTcSyn Grits.proofs.RtTheoremsTc Grits.proofs.DeterminismTc.
+Require Import Grits.proofs.LinBridge Grits.proofs.InitAccept Grits.proofs.DeterminismAccept.
 
 Theorem C03_step_is_move : forall md D F c ch, step md D F c ch = sres_of c (move_of md D F c ch).
 Proof. exact step_move. Qed.
@@ -317,6 +318,54 @@ Example C03_example_every_schedule :
               labels t ≡ₚ ["served"; "done"].
 Proof. exact example_every_schedule. Qed.
 
+(* ---- stage 4: init_linear from acceptance.  For an accepted program without assumed names whose SOURCE
+   passes the syntactic tests rt_syn_ok (names as the parser makes them) and core_src_b (no drop /
+   split / droppable forward, one provider name per process, no empty case), init_linear holds of the
+   checker's output: affinity of every body in every scope from C05, the forest of the initial
+   configuration from C07's ProgOK (each declared name used by one process, acyclic uses). *)
+Theorem C03_init_linear_accept : forall p p',
+  typecheck p = Accept p' -> in_fragment p' -> prog_syn_ok p = true -> rt_syn_ok p = true ->
+  core_src_b p = true -> init_linear p'.
+Proof. exact init_linear_accept. Qed.
+
+Theorem C03_topo_runs_core_accept : forall txt p p',
+  parse_string txt = POk p -> typecheck p = Accept p' -> in_fragment p' -> rt_syn_ok p = true ->
+  core_src_b p = true -> topo_runs p'.
+Proof. exact topo_runs_core_accept. Qed.
+
+(* C03 for parsed programs of the core fragment: the premises are computable conditions on the text *)
+Theorem C03_determinism_core_accept : forall txt p p' md pick1 pick2 f1 f2 t1,
+  parse_string txt = POk p -> typecheck p = Accept p' -> in_fragment p' -> rt_syn_ok p = true ->
+  core_src_b p = true -> is_np md = false ->
+  exec_run f1 pick1 md (p_types p') (p_funs p') (init_config p') = RQuiescent t1 -> (f1 <= f2)%nat ->
+  exists t2, exec_run f2 pick2 md (p_types p') (p_funs p') (init_config p') = RQuiescent t2 /\
+             cfg_equiv t2 t1 /\ labels t2 ≡ₚ labels t1.
+Proof. exact determinism_core_accept. Qed.
+
+Theorem C03_async_sync_agree_core_accept : forall txt p p' pick1 f1 t1,
+  parse_string txt = POk p -> typecheck p = Accept p' -> in_fragment p' -> rt_syn_ok p = true ->
+  core_src_b p = true ->
+  exec_run f1 pick1 Sync (p_types p') (p_funs p') (init_config p') = RQuiescent t1 ->
+  exists n, forall pick2 f2, (n < f2)%nat ->
+    exists t2, exec_run f2 pick2 Async (p_types p') (p_funs p') (init_config p') = RQuiescent t2 /\ labels t2 ≡ₚ labels t1.
+Proof. exact async_sync_agree_core_accept. Qed.
+
+Theorem C03_core_accept_sound : forall txt, core_accept_text txt = true ->
+  exists p p', parse_string txt = POk p /\ typecheck p = Accept p' /\ init_linear p' /\
+  forall md pick1 pick2 f1 f2 t1, is_np md = false ->
+    exec_run f1 pick1 md (p_types p') (p_funs p') (init_config p') = RQuiescent t1 -> (f1 <= f2)%nat ->
+    exists t2, exec_run f2 pick2 md (p_types p') (p_funs p') (init_config p') = RQuiescent t2 /\
+               cfg_equiv t2 t1 /\ labels t2 ≡ₚ labels t1.
+Proof. exact core_accept_sound. Qed.
+
+Example C03_example_core_accept : core_accept_text example_text = true.
+Proof. exact example_core_accept. Qed.
+
+(* the bridge from C05's counting to the run-time reading, for one body *)
+Theorem C03_linear_affr : forall ctx_names sh f,
+  Linear.uninit_form f = true -> nec f = true -> Linear.LinearNames ctx_names sh f -> affr sh f.
+Proof. exact linear_affr. Qed.
+
 (* UNCONDITIONAL, for a syntactic class (fork-join configurations: close self / wait / new with a
    closed child / print / parameterless calls, one provider per process; `FJ c` is a structural
    property of the configuration, decided by `fj_cfg_b`): no invariant hypothesis is left. *)
@@ -429,3 +478,10 @@ Print Assumptions C03_exec_check_run.
 Print Assumptions C03_demo_two_orders_async.
 Print Assumptions C03_demo_two_orders_sync.
 Print Assumptions C03_demo_diamond_nonvacuous.
+Print Assumptions C03_init_linear_accept.
+Print Assumptions C03_topo_runs_core_accept.
+Print Assumptions C03_determinism_core_accept.
+Print Assumptions C03_async_sync_agree_core_accept.
+Print Assumptions C03_core_accept_sound.
+Print Assumptions C03_example_core_accept.
+Print Assumptions C03_linear_affr.
